@@ -802,6 +802,12 @@ pub enum ChildOutcome {
 /// "BEGIN i" before and "END i <result>" after each case, so a death identifies its culprit.
 /// The child's worker thread gets `stack_kb` of stack.
 pub fn run_isolated(kind: &str, inputs: &[Vec<u8>], stack_kb: usize, timeout_s: u64) -> Vec<ChildOutcome> {
+    run_isolated_capped(kind, inputs, stack_kb, timeout_s, None)
+}
+
+/// `mem_limit_kb`: address-space limit of the child (`ulimit -v`): a case that needs more fails to allocate, which
+/// aborts the child - an abort that can be attributed to one input instead of a machine that runs out of memory
+pub fn run_isolated_capped(kind: &str, inputs: &[Vec<u8>], stack_kb: usize, timeout_s: u64, mem_limit_kb: Option<u64>) -> Vec<ChildOutcome> {
     use std::io::Write;
     let dir = format!("{}/.work", verif_dir());
     let _ = std::fs::create_dir_all(&dir);
@@ -819,7 +825,15 @@ pub fn run_isolated(kind: &str, inputs: &[Vec<u8>], stack_kb: usize, timeout_s: 
                 writeln!(f, "{}", hex::encode(i)).unwrap();
             }
         }
-        let child = std::process::Command::new(&exe)
+        let mut cmd = match mem_limit_kb {
+            None => std::process::Command::new(&exe),
+            Some(kb) => {
+                let mut c = std::process::Command::new("sh");
+                c.arg("-c").arg(format!("ulimit -v {}; exec \"$0\" \"$@\"", kb)).arg(&exe);
+                c
+            }
+        };
+        let child = cmd
             .arg("child")
             .arg(kind)
             .arg(&path)
